@@ -742,6 +742,86 @@ def rule_chunk_cover(repo: Repo, rep: Report, classes: List[ClassInfo]) -> int:
     return n
 
 
+RED_FUNCS = ("min", "max", "sum", "mean", "prod", "amin", "amax", "norm", "median", "std", "var")
+
+
+def rule_mixed_reduction(repo: Repo, rep: Report, classes: List[ClassInfo]) -> int:
+    """Contradiction rule: a tensor that one statement reduces along an explicit axis (`t.sum(dim=1)`: one value per row, so
+    the rows are the words of a batch) must not, in the same computation, be reduced over ALL its axes (`torch.min(t)`):
+    the second value is a statistic of the whole batch, and combining the two makes the result for one word depend on
+    the other words."""
+    n = 0
+    for ci in classes:
+        for m, fi in ci.methods.items():
+            # base names reduced with an explicit dim
+            def base_of(e):
+                while True:
+                    if isinstance(e, ast.Call) and (call_name(e) or "") in ("torch.abs", "torch.square", "torch.sign") and e.args:
+                        e = e.args[0]
+                    elif isinstance(e, ast.Call) and isinstance(e.func, ast.Attribute) and e.func.attr in ("abs", "float", "to", "int", "long", "clone", "detach", "bool") and not (isinstance(e.func.value, ast.Name) and e.func.value.id == "torch"):
+                        e = e.func.value
+                    elif isinstance(e, ast.Compare) and len(e.ops) == 1:
+                        e = e.left
+                    elif isinstance(e, ast.BinOp) and isinstance(e.op, ast.Pow):
+                        e = e.left
+                    else:
+                        break
+                return e.id if isinstance(e, ast.Name) else None
+
+            def reduction(c):
+                """(base name, has explicit dim) for a reduction call, else None"""
+                if not isinstance(c, ast.Call):
+                    return None
+                nm = call_name(c) or ""
+                short = nm.split(".")[-1]
+                if short not in RED_FUNCS:
+                    return None
+                if nm.startswith("torch.") and c.args:
+                    tgt, rest = c.args[0], c.args[1:]
+                elif isinstance(c.func, ast.Attribute) and not nm.startswith("torch.") and not nm.startswith("math.") and not nm.startswith("np."):
+                    tgt, rest = c.func.value, c.args
+                else:
+                    return None
+                b = base_of(tgt)
+                if b is None:
+                    return None
+                has_dim = any(k.arg in ("dim", "axis") for k in c.keywords) or bool(rest)
+                return b, has_dim
+
+            reds = [(c, reduction(c)) for c in ast.walk(fi.node) if reduction(c) is not None]
+            by_base: Dict[str, Dict[bool, list]] = {}
+            for c, (b, hd) in reds:
+                by_base.setdefault(b, {True: [], False: []})[hd].append(c)
+            for b, d in by_base.items():
+                if not (d[True] and d[False]):
+                    continue
+                # both kinds on the same tensor: do they meet in one arithmetic expression (directly or through locals)?
+                defs = {s_.targets[0].id: s_.value for s_ in ast.walk(fi.node) if isinstance(s_, ast.Assign) and len(s_.targets) == 1 and isinstance(s_.targets[0], ast.Name)}
+
+                def kinds(e, depth=0, seen=None):
+                    seen = seen or set()
+                    out = set()
+                    for x in ast.walk(e):
+                        if any(x is c for c in d[True]):
+                            out.add("row")
+                        if any(x is c for c in d[False]):
+                            out.add("full")
+                        if isinstance(x, ast.Name) and x.id in defs and x.id not in seen and depth < 3 and x.id != b:
+                            out |= kinds(defs[x.id], depth + 1, seen | {x.id})
+                    return out
+
+                for x in ast.walk(fi.node):
+                    if isinstance(x, ast.BinOp) and isinstance(x.op, (ast.Mult, ast.Add, ast.Sub, ast.Div)):
+                        kl, kr = kinds(x.left), kinds(x.right)
+                        if ("row" in kl and "full" in kr and "row" not in kr) or ("row" in kr and "full" in kl and "row" not in kl):
+                            n += 1
+                            full = d[False][0]
+                            rep.violation("BATCH-COUPLED", fi, f"{ci.name}.{m}: {unparse(x)[:90]}", f"`{unparse(full)[:50]}` reduces `{b}` over all its axes although `{unparse(d[True][0])[:50]}` shows that its rows are separate words: the full reduction is a statistic of the whole batch, and combining it with a per-word quantity makes a word's result depend on the other words of the call", node=x)
+                            break
+    rep.ok("BATCH-COUPLED", "kaira::components", f"{len(classes)} classes scanned for per-word values combined with whole-batch reductions of the same tensor", "none found" if n == 0 else f"{n} reported", nontrivial=False)
+    return n + 1
+
+
 def rule_row_carry(repo: Repo, rep: Report, classes: List[ClassInfo]) -> int:
     """In a loop over the rows (words) of a batch a local that is assigned only on some paths of the body and read later
     in the body keeps, on the other paths, the value it got for a *previous* row: the result for a row then depends on the
@@ -882,6 +962,7 @@ def run(repo: Repo, rep: Report, tier: str) -> None:
     n += rule_index_broadcast(repo, rep, classes)
     n += rule_block_axis(repo, rep, classes)
     n += rule_chunk_cover(repo, rep, classes)
+    n += rule_mixed_reduction(repo, rep, classes)
     n += rule_row_carry(repo, rep, classes)
     n += rule_subset_index(repo, rep)
     rep.floor("C20 rule instances", n, 85)
